@@ -62,6 +62,11 @@ RowsOf(ls, i, wide) ==
   IF i > Len(ls) THEN {<<>>}
   ELSE LET rest == RowsOf(ls, i + 1, wide)  pv == ProbeOf(ls[i], wide) IN
        {(ls[i].l.v :> pv[k]) @@ r : k \in DOMAIN pv, r \in rest}
-Rows(T) == LET ls == LeavesOf(T) IN RowsOf(ls, 1, Len(ls) <= 4)
+\* up to 4 leaves: every region of every column; up to 8: one true / one false value per column (2^n rows);
+\* beyond that 200 seeded random rows of that kind
+RandRow(ls) == LET pick(i) == ProbeOf(ls[i], FALSE)[RandomElement(1..2)] IN
+               [c \in {ls[i].l.v : i \in DOMAIN ls} |-> pick(CHOOSE i \in DOMAIN ls : ls[i].l.v = c)]
+Rows(T) == LET ls == LeavesOf(T) IN
+           IF Len(ls) <= 8 THEN RowsOf(ls, 1, Len(ls) <= 4) ELSE {RandRow(ls) : k \in 1..200}
 Filterable(T) == \A i \in DOMAIN LeavesOf(T) : LeavesOf(T)[i].op \in {"EQUALS","GREATER","GREATER_EQ","LESS","LESS_EQ","RANGE","IN"}
 =========================================================================
